@@ -185,3 +185,11 @@ Proof.
   cbv zeta. split. { vm_compute. reflexivity. } split. { vm_compute. reflexivity. }
   split; eexists; split; vm_compute; reflexivity.
 Qed.
+
+(* ---- Arithmetic.eval as the source has it (Gen/Guards.v): the expression text goes to the builtin eval as written, with no builtins and the
+   environment handed in; the POSITION of the item plays no part (so an arithmetic expression without labels is settled); every
+   exception becomes an AssemblerError at the line; the result must be an int *)
+From BB Require Gen.Guards Proofs.Guards.
+Theorem C12_arithmetic_eval_from_source : Proofs.Guards.arithmetic_eval_from_source_stmt.
+Proof. exact Proofs.Guards.arithmetic_eval_from_source. Qed.
+Print Assumptions C12_arithmetic_eval_from_source.
